@@ -36,8 +36,42 @@ let check_with (needs_lock : bool) (oracle : scase -> ev list -> bool) (fields :
                        (show_log (if is_lock fields then r.model else strip_consume r.model))), cross)
       else (correspondence fields r, cross)
 
+(* the parse function is handed only texts the client sent as the query of a complete Query or Parse message
+   within the limit, each at most once and in order (nothing out of a skipped, truncated or malformed message,
+   nothing twice): the texts seen by the parser are a subsequence of the texts sent *)
+let parse_budget (sc : scase) (il : ev list) : string option =
+  let tb t = int_of_byte t in
+  let sent = List.filter_map (function
+    | FMsg (t, body) when tb t = 81 -> (match take_cstr body with Some (q, _) -> Some q | None -> None)
+    | FMsg (t, body) when tb t = 80 ->
+        (match take_cstr body with
+         | Some (_, l1) -> (match take_cstr l1 with
+                            | Some (q, l2) -> (match l2 with _ :: _ :: _ -> Some q | _ -> None)
+                            | None -> None)
+         | None -> None)
+    | _ -> None) (client_frames sc) in
+  let seen = List.filter_map (function CbParse q -> Some q | _ -> None) il in
+  let rec subseq a b = match a, b with
+    | [], _ -> true
+    | _, [] -> false
+    | x :: a', y :: b' -> if x = y then subseq a' b' else subseq a b' in
+  if subseq seen sent then None
+  else Some (Printf.sprintf "the parse function was called with %d texts that are not, in order, query texts of complete Query/Parse messages within the limit (%d such messages were sent)"
+               (List.length seen) (List.length sent))
+let with_budget (check : sexp list -> verdict * string option) (fields : sexp list) : verdict * string option =
+  let (v, cross) = check fields in
+  match v with
+  | OracleFail _ -> (v, cross)
+  | _ ->
+      let r = run_sess fields in
+      (match r.impl with
+       | Some il when not r.obs_.sslreq ->
+           (match parse_budget r.case_ il with
+            | Some why -> (OracleFail why, cross)
+            | None -> (v, cross))
+       | _ -> (v, cross))
 let check_C05 = check_with true oracle_C05
-let check_C06 = check_with true oracle_turns
+let check_C06 = with_budget (check_with true oracle_turns)
 let check_C01 = check_with false oracle_C01
 let check_C12 = check_with false oracle_C12
 let check_C07 = check_with true oracle_names
@@ -153,4 +187,4 @@ let check_C11 (fields : sexp list) : verdict * string option =
 let check_C18 = check_with false (fun _ _ -> true)
 let check_C09 = check_with false oracle_C09
 (* C04: no crash, no hang, the connection ends (the oracle), and the log equals the model's (in particular: no callback with fabricated data) *)
-let check_C04 = check_with false (fun _ log -> List.for_all (function Crash | OutOfFuel -> false | _ -> true) log && List.exists (function Closed -> true | _ -> false) log)
+let check_C04 = with_budget @@ check_with false (fun _ log -> List.for_all (function Crash | OutOfFuel -> false | _ -> true) log && List.exists (function Closed -> true | _ -> false) log)
